@@ -38,6 +38,9 @@ func (w *World) verifTables() []verifTable {
 	return res
 }
 
+// verifStrictFreeRows makes VerifCheckInvariants treat non-zero free rows as a broken invariant.
+var verifStrictFreeRows = false
+
 // VerifCheckInvariants walks the hidden state and returns the first broken structural invariant.
 func (w *World) VerifCheckInvariants() (err error) {
 	defer func() {
@@ -161,7 +164,12 @@ func (w *World) VerifCheckInvariants() (err error) {
 			if uint32(buf.Len()) != a.cap {
 				return fmt.Errorf("%s: column %d has %d slots, cap is %d", name, id.id, buf.Len(), a.cap)
 			}
-			// rows [len, cap) must be all zero: this is what makes new components read as zero
+			// rows [len, cap) all zero is how this implementation makes new components read as
+			// zero; it is a policy, not a necessity, so it is reported by VerifFreeRowsNotZeroed
+			// and not as a broken invariant
+			if !verifStrictFreeRows {
+				continue
+			}
 			start := uintptr(a.len) * uintptr(lay.itemSize)
 			end := uintptr(a.cap) * uintptr(lay.itemSize)
 			if end > start {
